@@ -20,6 +20,8 @@ def bits(x):
 def unbits(s):
   if s == 'inf':
     return math.inf
+  if s == '-inf':
+    return -math.inf
   return struct.unpack('<d', struct.pack('<Q', int(s)))[0]
 
 
@@ -81,6 +83,10 @@ def gen_frame(rng, n_pre=None, cooldown=None, cost_kind=None, spike=False):
       v = yt * wt[g] / sum(wt)
       if cost_kind == 'variable':
         cost = rng.uniform(1, 5) + (rng.uniform(20, 60) if period[d] == 1 else 0.0)
+      elif cost_kind == 'variable_trt_pre':      # only the treatment geos spend before the test
+        cost = (rng.uniform(1, 5) if period[d] == 0 else 0.0) + (rng.uniform(20, 60) if period[d] == 1 else 0.0)
+      elif cost_kind == 'fixed_negative':        # spend reduction recorded as negative incremental cost
+        cost = -rng.uniform(20, 60) if period[d] == 1 else 0.0
       else:
         cost = rng.uniform(20, 60) if period[d] == 1 else 0.0
       rows.append([f't{g}', d, 2, period[d], v, cost])
